@@ -50,9 +50,20 @@ impl Flags {
     }
 }
 
+/// 0 = without tag models, 1 = with tag models, 2 = with tag models and a bias that splits almost
+/// everywhere (so that the wsconst filters really merge predicted tokens)
 fn model_bytes(i: usize) -> Vec<u8> {
-    if i == 0 { crate::bfs::model_plain().to_bytes() } else { crate::bfs::model_tags2().to_bytes() }
+    match i {
+        0 => crate::bfs::model_plain().to_bytes(),
+        1 => crate::bfs::model_tags2().to_bytes(),
+        _ => {
+            let mut m = crate::bfs::model_tags2();
+            m.bias = 60;
+            m.to_bytes()
+        }
+    }
 }
+const N_MODELS: usize = 3;
 
 pub fn model_path(i: usize) -> String {
     format!("{SCRATCH}/c20-model{i}.zst")
@@ -60,7 +71,7 @@ pub fn model_path(i: usize) -> String {
 
 pub fn prepare_models() {
     let _ = std::fs::create_dir_all(SCRATCH);
-    for i in 0..2 {
+    for i in 0..N_MODELS {
         let z = zstd::encode_all(&model_bytes(i)[..], 3).unwrap();
         std::fs::write(model_path(i), z).unwrap_or_else(|e| machinery_error(&e.to_string()));
     }
@@ -72,6 +83,7 @@ fn filters(ws: &[String]) -> Vec<Box<dyn SentenceFilter>> {
             match w.as_str() {
                 "D" => Box::new(KyteaWsConstFilter::new(CharacterType::Digit)),
                 "R" => Box::new(KyteaWsConstFilter::new(CharacterType::Roman)),
+                "H" => Box::new(KyteaWsConstFilter::new(CharacterType::Hiragana)),
                 "G" => Box::new(ConcatGraphemeClustersFilter),
                 _ => machinery_error("unsupported wsconst in the harness"),
             }
@@ -351,7 +363,7 @@ pub fn run(tier: Tier) -> ! {
     }
     prepare_models();
     // predict
-    let pool = ["", "a", "あい", "a b", "a/b", "a\\b", "ab1", "a\0b", "火星猫だ", "abab"];
+    let pool = ["", "a", "あい", "a b", "a/b", "a\\b", "ab12", "a\0b", "火星猫だ", "abab", "e\u{301}ab"];
     let mut streams: Vec<String> = vec![];
     let maxl = tier.pick(2, 3);
     for n in 1..=maxl {
@@ -365,9 +377,9 @@ pub fn run(tier: Tier) -> ! {
             streams.push(body.join("\n"));
         }
     }
-    let wss: Vec<Vec<String>> = vec![vec![], vec!["D".into()], vec!["G".into()], vec!["D".into(), "G".into()]];
+    let wss: Vec<Vec<String>> = vec![vec![], vec!["D".into()], vec!["G".into()], vec!["D".into(), "G".into()], vec!["R".into()], vec!["H".into(), "R".into()]];
     let mut flagsets = vec![];
-    for model in 0..2 {
+    for model in 0..N_MODELS {
         for bits in 0..16u8 {
             for ws in &wss {
                 flagsets.push(Flags { model, no_norm: bits & 1 != 0, predict_tags: bits & 2 != 0, scores: bits & 4 != 0, tag_scores: bits & 8 != 0, wsconst: ws.clone() });
@@ -394,12 +406,12 @@ pub fn run(tier: Tier) -> ! {
     let untagged = ["a b", "ab a", "あ a1", "abab", "a ba b", "", "火星 猫 だ", "1 1a"];
     let tagged = ["a/X/p b", "ab/Z/s a/Y/q", "あ/V a", "a/X/q b a/Y/p", "", "ab/Z/t", "b a/X/r"];
     let mut ejobs = vec![];
-    for model in 0..2usize {
+    for model in 0..N_MODELS {
         for bits in 0..8u8 {
             for ws in &wss {
                 let fl = EvalFlags { model, no_norm: bits & 1 != 0, predict_tags: bits & 2 != 0, word: bits & 4 != 0, wsconst: ws.clone() };
                 // tagged references only where the tool predicts tags of the same arity
-                let lines: &[&str] = if fl.predict_tags && model == 1 { &tagged } else { &untagged };
+                let lines: &[&str] = if fl.predict_tags && model >= 1 { &tagged } else { &untagged };
                 let nmax = tier.pick(2, 3);
                 for n in 1..=nmax {
                     for v in crate::gen::vectors(lines.len() as u8, n) {
@@ -429,7 +441,7 @@ pub fn run(tier: Tier) -> ! {
     chk.assume("layout: tokenised line, newline, then the score block, then the tag-score block (the layout of the default mode and of the README); for a rejected line only the empty line is fixed, an empty block per requested block kind is tolerated");
     chk.assume("--tag-scores without --predict-tags is meaningless: a clean refusal (non-zero exit, empty stdout) or normal output without tag blocks is accepted, a panic is not");
     chk.finish(
-        "predict: every stream of 1..2 (thorough: + the 3-line streams containing a rejected line) lines from a 10-line pool (empty, NUL, spaces, slashes, backslashes, half-width, multi-byte) with and without final newline x every subset of {--no-norm, --predict-tags, --scores, --tag-scores} x 4 wsconst settings x 2 models (quick: a rotating third of the stream x flag-set product); evaluate: every stream of 1..2/1..3 reference lines x {--no-norm} x {--predict-tags} x {char, word} x 4 wsconst settings x 2 models (quick: a quarter); stdout and exit status of the real binaries vs the library pipeline run in-process; non-trivial = blocks requested or more than one line",
+        "predict: every stream of 1..2 (thorough: + the 3-line streams containing a rejected line) lines from a 10-line pool (empty, NUL, spaces, slashes, backslashes, half-width, multi-byte) with and without final newline x every subset of {--no-norm, --predict-tags, --scores, --tag-scores} x 6 wsconst settings (none, D, G, D G, R, H R) x 3 models (without tags, with tags, with tags and a bias that splits almost everywhere so that filters really merge tokens) (quick: a rotating third of the stream x flag-set product); evaluate: every stream of 1..2/1..3 reference lines x {--no-norm} x {--predict-tags} x {char, word} x 6 wsconst settings x 3 models (quick: a quarter); stdout and exit status of the real binaries vs the library pipeline run in-process; non-trivial = blocks requested or more than one line",
         true,
         &replay,
     )
